@@ -1194,7 +1194,7 @@ static void exec_case(const Fn &f, const std::vector<int> &a, int mode, Ctx &c, 
         op[ao] = ip[aj];
         c.count(K_ALIASED);
     }
-    std::string sig = sigclass(f) + argtypes(a) + (mode > 0 ? "[aliased]" : "");
+    std::string sig = sigclass(f) + (mode > 0 ? "[aliased]" : ""); // call site = defect class; argument kinds are in the description
     c.eval();
     // ---- the C call
     Obs C;
